@@ -20,14 +20,14 @@ func (C18) ID() string                   { return "C18" }
 func (C18) Model() string                { return "shard" }
 func (C18) Parallel() int                { return 8 }
 func (C18) Stateful() bool               { return true }
-func (C18) KeepOp(i int, op string) bool { return i == 0 }
+func (C18) KeepOp(i int, op string) bool { return i == 0 || strings.HasPrefix(op, "creset") }
 func (C18) RunImpl(c fw.Case) []string   { return RunOps(c.Ops) }
 func (C18) Oracle(c fw.Case, out []string) fw.Verdict {
 	return Prop{}.Oracle(c, out)
 }
 func (C18) Trivial(c fw.Case, out []string) bool {
 	for _, op := range c.Ops {
-		if strings.HasPrefix(op, "bk ") {
+		if strings.HasPrefix(op, "bk ") || strings.HasPrefix(op, "copy ") {
 			return false
 		}
 	}
@@ -114,12 +114,64 @@ func c18Case(r *fw.Rand, index string) fw.Case {
 	return fw.Case{Ops: ops, Tags: []string{"backup", index}}
 }
 
+// c18CopyCase: shard copy over the inter-node protocol between two in-process nodes, the
+// source's stream complete, cut at a fraction of its length, cut exactly at the end of an
+// archive member, or absent (the source does not have the shard).
+func c18CopyCase(r *fw.Rand, index string) fw.Case {
+	ops := []string{"reset " + index, "creset " + index}
+	live := map[string]bool{}
+	batch := func() string {
+		n := 2 + r.Intn(8)
+		var pts []string
+		for i := 0; i < n; i++ {
+			m, tg := c10Meas[r.Intn(len(c10Meas))], c10Tags[r.Intn(3)]
+			live[m+"|"+tg] = true
+			pts = append(pts, fmt.Sprintf("%s|%s|%d|n=%s", m, tg, c10Base+int64(r.Intn(40))*1000, genVal(r, 'i')))
+		}
+		return strings.Join(pts, ";")
+	}
+	liveList := func() string {
+		var l []string
+		for s := range live {
+			l = append(l, s)
+		}
+		sort.Strings(l)
+		return strings.Join(l, ";")
+	}
+	for i := 0; i < 1+r.Intn(3); i++ {
+		ops = append(ops, "cw "+batch())
+		if r.Intn(2) == 0 {
+			ops = append(ops, "csnap")
+		}
+		if r.Intn(3) == 0 {
+			lo := c10Base + int64(r.Intn(40))*1000
+			ops = append(ops, fmt.Sprintf("cdel %s %d %d", c10Meas[r.Intn(len(c10Meas))], lo, lo+int64(r.Intn(10))*1000))
+		}
+	}
+	for i := 0; i < 2+r.Intn(4); i++ {
+		cut := "full"
+		switch r.Intn(6) {
+		case 0:
+			cut = fmt.Sprintf("pm%d", r.Intn(1000))
+		case 1, 2:
+			cut = fmt.Sprintf("b%d", r.Intn(4))
+		case 3:
+			cut = "nosrc"
+		}
+		ops = append(ops, fmt.Sprintf("copy %s %s n", cut, liveList()))
+	}
+	return fw.Case{Ops: ops, Tags: []string{"copy", index}}
+}
+
 func (C18) Generate(r *fw.Rand, tier string) []fw.Case {
 	n := 50
 	if tier == "thorough" {
 		n = 2000
 	}
 	var cases []fw.Case
+	for i := 0; i < n/2; i++ {
+		cases = append(cases, c18CopyCase(r.Fork(), []string{"inmem", "tsi1"}[i%2]))
+	}
 	for i := 0; i < n; i++ {
 		idx := "inmem"
 		if i%2 == 1 {
